@@ -65,7 +65,7 @@ Proof.
   destruct (wkt_schema full x) as [[s|]|cls]; cbn [lift obind]; try exact I; [apply keeps_refl|].
   destruct (has_prefix s_google_protobuf full); [exact I|].
   destruct (find_msg D full) as [m|] eqn:Ef; [|exact I].
-  destruct (lookup st (msg_key m)) eqn:El; cbn [obind]; [apply keeps_refl|].
+  destruct (lookup st (msg_key m)) as [en|] eqn:El; [destruct (is_enum_entry en); cbn [obind]; [exact I|apply keeps_refl]|cbn [obind]].
   pose proof (Hrec ((msg_key m, Placeholder) :: st) m) as Hr.
   destruct (rec ((msg_key m, Placeholder) :: st) m) as [[st1 r]| | |]; cbn [obind Pk fst] in *; try exact I.
   apply keeps_update_other; [exact El|]. eapply keeps_trans; [apply keeps_cons; exact El|exact Hr].
@@ -460,7 +460,7 @@ Proof.
   - destruct (has_prefix s_google_protobuf full); [discriminate|].
     destruct (find_msg D full) as [m|] eqn:Ef; [|discriminate].
     assert (Hm : In m (d_msgs D)) by (eapply find_msg_In; eauto).
-    destruct (lookup st (msg_key m)) eqn:El; cbn [obind] in H.
+    destruct (lookup st (msg_key m)) as [en|] eqn:El; [destruct (is_enum_entry en); cbn [obind] in H; [discriminate|]|cbn [obind] in H].
     + inversion H; subst st1 s. split; [reflexivity|exact HC].
     + destruct (rec ((msg_key m, Placeholder) :: st) m) as [[st2 r]| | |] eqn:Er; cbn [obind] in H; try discriminate.
       inversion H; subst st1 s. split; [reflexivity|].
